@@ -239,12 +239,15 @@ def gen_definition(rng, tzid, allow_inconsistent=False):
     delta = rng.choice(DELTAS)
     with_names = rng.random() < 0.8
     tag = "".join(rng.choice("ABCDEFGHKLMNPQRSTUVWXYZ") for _ in range(3))
+    if rng.random() < 0.12:
+        tag = tag[:2] + rng.choice("ÖÅÑ日")     # abbreviations are free text
     names = (tag + "ST", tag + "DT") if with_names else (None, None)
     shape = rng.choice(["fixed", "open", "open", "bounded", "bounded", "explicit", "two-eras", "base+open"])
     obs = []
     meta = {"shape": shape}
-    base = {"kind": "STANDARD", "dtstart": [1970, 1, 1, 0, 0, 0], "from": std, "to": std,
-            "name": names[0], "rrule": None, "rdates": []}
+    base = {"kind": "STANDARD", "dtstart": rng.choice([[1970, 1, 1, 0, 0, 0], [1970, 1, 1, 0, 0, 0], [1601, 1, 1, 0, 0, 0],
+                                                          [1883, 11, 18, 12, 0, 0]]),
+            "from": std, "to": std, "name": names[0], "rrule": None, "rdates": []}
     if shape == "fixed":
         obs = [base]
         if rng.random() < 0.4:
